@@ -694,6 +694,9 @@ void ev_dump(FILE *f, int last)
 
 /* structural invariants of the parser object, looked at after every service call (quiescent for the object: nothing runs between two calls).
  * Only facts whose violation makes the NEXT access leave its array or follow a wild pointer (C03), and the bookkeeping of the bounded event ring (C13). */
+#ifdef VERIF_NO_OBJECT_INVARIANTS
+static void object_invariants(void) {}
+#else
 static bool in_table(const struct cat_command *c) { return c == NULL || cmd_index(c) >= 0; }
 static void object_invariants(void)
 {
@@ -713,6 +716,7 @@ static void object_invariants(void)
         }
         CNT("object_invariant_checks");
 }
+#endif
 cat_status svc(void)
 {
         int pair = ((int)W.at->state + 1) * 11 + (int)W.at->unsolicited_fsm.state;
